@@ -52,7 +52,9 @@ EW_UN = {"exp": "exp", "log": "log", "log1p": "log1p", "sigmoid": "sigmoid", "ne
          "logical_not": "not", "__invert__": "not", "bitwise_not": "not",
          "ones_like": "fill1", "zeros_like": "fill0"}
 REDS = {"sum": "sum", "mean": "mean", "prod": "prod", "all": "all", "any": "any", "amax": "max", "amin": "min",
-        "_is_all_true": "all", "max": "max", "min": "min"}
+        "_is_all_true": "all", "max": "max", "min": "min", "median": "median"}
+INPLACE_EW = {"__imul__": "mul", "__iadd__": "add", "__isub__": "sub", "__itruediv__": "div",
+              "mul_": "mul", "add_": "add", "sub_": "sub", "div_": "div"}
 DRAWS = {"randn", "rand", "normal", "randn_like", "rand_like"}
 ESCAPES = {"__bool__", "item", "tolist", "__float__", "__int__", "__index__", "numpy", "equal", "allclose",
            "is_nonzero", "__contains__", "__array__", "__iter__"}
@@ -81,7 +83,7 @@ class Node:
             setattr(self, s, kw.get(s))
 
     def text(self) -> str:
-        if self.kind in "PIU":
+        if self.kind in "PIUJ":
             return f"{self.kind}|{self.k}|{shp(self.shape)}"
         if self.kind == "K":
             return f"K|{shp(self.shape)}|{self.data}"
@@ -92,7 +94,7 @@ class Node:
 
     def skeleton(self) -> str:
         """The node without shapes (constants: scalar values only)."""
-        if self.kind in "PIU":
+        if self.kind in "PIUJ":
             return f"{self.kind}|{self.name}"
         if self.kind == "K":
             return f"K|{self.data if len(tuple(self.shape)) == 0 else 'tensor'}"
@@ -110,7 +112,8 @@ class Tracer(TorchFunctionMode):
         self.nodes: list[Node] = []
         self.node_of_id: dict[int, int] = {}  # id(tensor) -> node index (emitted nodes)
         self.pop_ids: dict[int, object] = {}  # id(tensor) -> tensor, class P, not (yet) emitted
-        self.leaf_vals = {"P": [], "I": [], "U": []}
+        self.leaf_vals = {"P": [], "I": [], "U": []}      # `J` inputs (individuals on axis 1) are numbered with the `I` ones
+        self.ver: dict[int, int] = {}         # id(tensor) -> tensor._version when its node was bound
         self.unknown_ops: dict[str, int] = {}
         self.ambient = 0
         self.n_calls = 0
@@ -123,12 +126,14 @@ class Tracer(TorchFunctionMode):
         if tensor is not None:
             self.keep.append(tensor)
             self.node_of_id[id(tensor)] = i
+            self.ver[id(tensor)] = tensor._version
             self.pop_ids.pop(id(tensor), None)
         return i
 
     def _emit_leaf(self, cls, name, t) -> int:
-        k = len(self.leaf_vals[cls])
-        self.leaf_vals[cls].append(t.detach().clone())
+        store = "I" if cls == "J" else cls
+        k = len(self.leaf_vals[store])
+        self.leaf_vals[store].append(t.detach().clone())
         return self._emit(Node(cls, k=k, shape=tuple(t.shape), name=name, dtype=str(t.dtype)), t)
 
     def _is_pop(self, t) -> bool:
@@ -153,6 +158,9 @@ class Tracer(TorchFunctionMode):
         """Node of a tensor argument (emitting an input node when it has none yet)."""
         i = id(t)
         if i in self.node_of_id:
+            if self.ver.get(i) != t._version:
+                # the storage was modified behind the recorded node (through an alias / a view): its node is not its value
+                return self._emit_leaf("U", "stale-alias", t)
             return self.node_of_id[i]
         if i in self.pop_ids:
             return self._emit_leaf("P", "computed", t)
@@ -254,7 +262,7 @@ class Tracer(TorchFunctionMode):
             outs = [tens[0]]
         # ---- an individual-level operation
         try:
-            spec = None if inplace else self._translate(short, full, args, kwargs, out, outs)
+            spec = self._translate_inplace(short, args, kwargs) if inplace else self._translate(short, full, args, kwargs, out, outs)
         except Exception:  # noqa  (an unexpected call signature: fail closed)
             spec = None
         if spec is None:
@@ -270,8 +278,38 @@ class Tracer(TorchFunctionMode):
             return out
         for (op, a, params, o) in spec:
             self._emit(Node("O", op=op, args=a, shape=tuple(o.shape), params=params,
-                            call=(func, args, kwargs), dtype=str(o.dtype)), o)
+                            call=None if inplace else (func, args, kwargs), dtype=str(o.dtype)), o)
         return out
+
+    # ------------------------------------------------------------------ in-place operations: the new value of the target
+    def _translate_inplace(self, short, args, kwargs):
+        """`x op= y`, `x.clamp_(…)`, `x[mask] = v` as the out-of-place operation whose result becomes the node of `x`.
+        Only for tensors that own their storage (a write through a view changes its base: not in the table)."""
+        T = torch.Tensor
+        x = args[0]
+        if not isinstance(x, T) or x._base is not None or id(x) not in self.node_of_id:
+            return None         # a view, or a tensor whose value before the write was never recorded
+        old = self.node_of_id[id(x)]    # (the operation has already run: no version check on the target itself)
+        if short in INPLACE_EW and len(args) == 2 and not kwargs:
+            return [(f"ew.{INPLACE_EW[short]}", [old, self.operand(args[1])], None, x)]
+        if short == "clamp_":
+            lo = kwargs.get("min", args[1] if len(args) > 1 else None)
+            hi = kwargs.get("max", args[2] if len(args) > 2 else None)
+            steps = [(nm, b) for nm, b in (("maximum", lo), ("minimum", hi)) if b is not None]
+            if not steps:
+                return None
+            cur = old
+            res = []
+            for q, (nm, b) in enumerate(steps):
+                if q == len(steps) - 1:
+                    res.append((f"ew.{nm}", [cur, self.operand(b)], None, x))
+                else:
+                    tmp = x.detach().clone()
+                    cur = self._emit(Node("O", op=f"ew.{nm}", args=[cur, self.operand(b)], shape=tuple(x.shape), params=None), tmp)
+            return res
+        if short == "__setitem__" and len(args) == 3 and isinstance(args[1], T) and args[1].dtype == torch.bool:
+            return [("mscatter", [old, self.node(args[1]), self.operand(args[2])], None, x)]
+        return None
 
     # ------------------------------------------------------------------ torch name -> IR operation (syntactic)
     def _translate(self, short, full, args, kwargs, out, outs):
@@ -329,7 +367,7 @@ class Tracer(TorchFunctionMode):
             keep = kwargs.get("keepdim", args[2] if len(args) > 2 else False)
             if [k for k in kwargs if k not in ("dim", "keepdim", "dtype")] or len(args) > 3:
                 return None
-            if short in ("max", "min") and dim is not None:
+            if short in ("max", "min", "median") and dim is not None:
                 return None          # (values, indices): not in the table
             if dim is None:
                 dims = []
@@ -357,6 +395,8 @@ class Tracer(TorchFunctionMode):
             return [("expand", [self.node(args[0])], None, one)]
         if short == "broadcast_tensors" and isinstance(out, (tuple, list)) and len(out) == len(args) and all(isinstance(a, T) for a in args):
             return [("expand", [self.node(a)], None, o) for a, o in zip(args, out) if o is not a]
+        if short == "__getitem__" and one is not None and isinstance(args[1], T) and args[1].dtype == torch.bool:
+            return [("mselect", [self.node(args[0]), self.node(args[1])], None, one)]
         if short == "__getitem__" and one is not None:
             idx = args[1] if isinstance(args[1], tuple) else (args[1],)
             items = []
@@ -408,6 +448,11 @@ class Tracer(TorchFunctionMode):
         return None
 
     # ------------------------------------------------------------------ results
+    def preload(self, tensors):
+        """Bind the declared inputs now (their values are snapshotted before the traced code can write into them)."""
+        for t in tensors:
+            self.node(t)
+
     def out_node(self, t) -> int:
         return self.node(t)
 
